@@ -3,8 +3,8 @@
 From Coq Require Import ZArith NArith PeanoNat List Bool Lia ZifyBool ZifyNat ZifyN String.
 From Trion Require Import Text.Types Expr.I64 Expr.EvalModel Expr.Denote Expr.C08Sound Arm.Instr Arm.DisplayModel Arm.AsmStmtModel Arm.EncodeModel
   Mem.MapModel Mem.DictSpec Mem.MapProofs Mem.MapLemmas Mem.MapOccupied
-  Asm.CtxModel Asm.SegProofs Asm.SegPut Asm.LayoutSpec Asm.LayoutWf Asm.LayoutEval Asm.LayoutEvalC Asm.LayoutInstr Asm.LayoutInstrC
-  Asm.LayoutDict Asm.ScopeProofs Asm.LayoutProofs Asm.LayoutSim Asm.Ctx06Proofs Asm.CtxNoPanic Asm.LayoutStep Asm.LayoutFinal Asm.LayoutProg.
+  Asm.CtxModel Asm.SegProofs Asm.SegPut Asm.LayoutSpec Asm.LayoutWf Asm.LayoutEval Asm.LayoutEvalC Asm.LayoutInstr Asm.LayoutInstrC Asm.LayoutInstrD
+  Asm.LayoutDict Asm.ScopeProofs Asm.LayoutProofs Asm.LayoutSim Asm.LayoutStage Asm.Ctx06Proofs Asm.CtxNoPanic Asm.LayoutStep Asm.LayoutFinal Asm.LayoutProg.
 From Trion Require Text.ParseModel.
 Import ListNotations.
 Open Scope N_scope.
@@ -14,20 +14,19 @@ Definition fresh_step (E : env) (s0 : p1) (e : element_value) (s1 : p1) : Prop :
   (forall x, is_addr e = true -> p_cur s1 = Some x -> d_get (gdict E (p_items s0)) x = None) /\
   fresh_item E (p_items s0) (p_items s1).
 
-Lemma step_prog dbg fs inc E st cur ek items e s' :
-  Sim E st cur ek (gdict E items) -> Tight st -> Pd E st -> stmt_ok E ek (e_val e) ->
-  pass1_step fs (mkP1 cur ek items) (e_val e) = Some s' ->
+Lemma step_prog dbg fs fsr inc E st cur ek items e s' path ps :
+  Sim E st cur ek (gdict E items) -> Tight st -> Pd E st -> path_stack st = path :: ps -> stmt_okx fs fsr path E ek (e_val e) ->
+  pass1_step fsr (mkP1 cur ek items) (e_val e) = Some s' ->
   (forall a it, In (a, it) (p_items s') -> pass2_item E a it <> None) ->
   fresh_step E (mkP1 cur ek items) (e_val e) s' ->
   accepted E (step dbg fs inc st e).
 Proof.
-  intros HSim HT HP OK HP1 H2 (HFa & HFi). destruct e as [line col ev]. cbn [e_val p_items] in *. destruct ev as [name|name args|name args].
-  - eapply label_prog; eauto.
-  - unfold step. cbn [e_val e_line e_col]. unfold process_directive. cbn [stmt_ok] in OK. cbn [is_addr] in HFa.
+  intros HSim HT HP EPS OK HP1 H2 (HFa & HFi). destruct e as [line col ev]. cbn [e_val p_items] in *. destruct ev as [name|name args|name args].
+  - apply (label_prog dbg fsr inc E st cur ek items line col name s' HSim HT HP HP1).
+  - unfold step. cbn [e_val e_line e_col]. unfold process_directive. cbn [stmt_okx] in OK. cbn [is_addr] in HFa.
     unfold pass1_step in HP1. unfold dname in HP1, HFa. cbn [p_env p_cur] in HP1.
     destruct (dir_of name) as [d|] eqn:Ed; unfold dir_of, CtxModel.is, AsmStmtModel.is in Ed;
-    repeat match type of Ed with (if ?c then _ else _) = _ => destruct c eqn:? end; try discriminate Ed; inversion Ed; try subst d;
-      try (exfalso; apply OK; reflexivity); try dh.
+    repeat match type of Ed with (if ?c then _ else _) = _ => destruct c eqn:? end; try discriminate Ed; inversion Ed; try subst d; try dh.
     + eapply addr_prog; eauto.
     + eapply align_prog; eauto.
     + eapply const_prog; eauto.
@@ -38,11 +37,17 @@ Proof.
       { exfalso. assert (X : bytes_of_string "dhex" = bytes_of_string "dstr") by (eapply str_clash; eauto). vm_compute in X. discriminate X. }
       eapply bytes_prog; eauto.
     + eapply bytes_prog; eauto.
+    + destruct (AsmStmtModel.str_eqb name (bytes_of_string "dstr")) eqn:K1.
+      { exfalso. assert (X : bytes_of_string "dfile" = bytes_of_string "dstr") by (eapply str_clash; eauto). vm_compute in X. discriminate X. }
+      destruct (AsmStmtModel.str_eqb name (bytes_of_string "dhex")) eqn:K2.
+      { exfalso. assert (X : bytes_of_string "dfile" = bytes_of_string "dhex") by (eapply str_clash; eauto). vm_compute in X. discriminate X. }
+      apply (file_prog dbg fs inc E fsr st cur ek items line col args s' path ps HSim HT HP EPS (OK eq_refl) HP1 HFi).
   - unfold step. cbn [e_val e_line e_col].
     assert (EA : exists sg, active st = Active sg).
     { destruct HSim as (ts & _ & [_ _ _ C _ _ _ _ _ _ _]). cbn [pass1_step] in HP1.
       destruct (instr_size name); [|dh]. unfold place in HP1. cbn [p_cur] in HP1. destruct cur; [|dh]. destruct C as (sg & EA & _). eauto. }
-    destruct EA as (sg & EA). rewrite EA. cbn [pass1_step] in HP1. eapply instr_prog; eauto.
+    destruct EA as (sg & EA). rewrite EA. cbn [pass1_step] in HP1.
+    apply (instr_prog dbg fs inc E st cur ek items line col name args s' HSim HT HP OK HP1 H2 HFi).
 Qed.
 
 (* ------------------------------------------------------------------ the statement loop *)
@@ -50,27 +55,29 @@ Definition fresh_from (fs : str -> option (list N)) (E : env) (s : p1) (els : li
   forall pre e post s0 s1, els = pre ++ e :: post -> pass1 fs s (map e_val pre) = Some s0 ->
     pass1_step fs s0 (e_val e) = Some s1 -> fresh_step E s0 (e_val e) s1.
 
-Lemma prog_run dbg fs inc E : inc_ok inc -> forall els st s s',
-  Sim E st (p_cur s) (p_env s) (gdict E (p_items s)) -> Tight st -> Pd E st ->
-  class_from fs E s els -> fresh_from fs E s els ->
-  pass1 fs s (map e_val els) = Some s' -> env_le (p_env s') E ->
+Lemma prog_run dbg fs fsr inc E path ps : inc_ok inc -> forall els st s s',
+  Sim E st (p_cur s) (p_env s) (gdict E (p_items s)) -> Tight st -> Pd E st -> path_stack st = path :: ps ->
+  class_fromx fs fsr path E s els -> fresh_from fsr E s els ->
+  pass1 fsr s (map e_val els) = Some s' -> env_le (p_env s') E ->
   (forall a it, In (a, it) (p_items s') -> pass2_item E a it <> None) ->
   exists st', run_items dbg fs inc (map Text.ParseModel.IOk els) st = Ret None st' /\ errors st' = [] /\ Tight st' /\ Pd E st' /\
     Sim E st' (p_cur s') (p_env s') (gdict E (p_items s')).
 Proof.
-  intros IO. induction els as [|e r IH]; intros st s s' HSim HT HP HC HFr HP1 HE H2.
+  intros IO. induction els as [|e r IH]; intros st s s' HSim HT HP EPS HC HFr HP1 HE H2.
   - cbn in HP1. inversion HP1; subst. exists st. cbn [map run_items]. repeat split; auto.
     destruct HSim as (ts & _ & HS). exact (sm_err _ _ _ _ _ _ HS).
-  - cbn [map pass1] in HP1. destruct (pass1_step fs s (e_val e)) as [s1|] eqn:P1; [|discriminate].
+  - cbn [map pass1] in HP1. destruct (pass1_step fsr s (e_val e)) as [s1|] eqn:P1; [|discriminate].
     destruct (pass1_mono _ _ _ _ HP1) as (M1 & M2).
     pose proof (HC [] e r s eq_refl eq_refl) as OK0. pose proof (HFr [] e r s s1 eq_refl eq_refl P1) as FR0.
     destruct s as [cur ek items]. cbn [p_cur p_env p_items] in *.
     assert (H2' : forall a it, In (a, it) (p_items s1) -> pass2_item E a it <> None) by (intros a it Hi; apply H2, M2, Hi).
-    destruct (step_prog dbg fs inc E st cur ek items e s1 HSim HT HP OK0 P1 H2' FR0) as (st1 & S1 & Z1 & T1 & P1').
-    assert (S' : Sim E st1 (p_cur s1) (p_env s1) (gdict E (p_items s1))).
-    { apply (sim_step dbg fs inc E st cur ek items e st1 s1 HSim OK0 S1 Z1 P1); [|exact H2'].
+    destruct (step_prog dbg fs fsr inc E st cur ek items e s1 path ps HSim HT HP EPS OK0 P1 H2' FR0) as (st1 & S1 & Z1 & T1 & P1').
+    assert (S' : Sim E st1 (p_cur s1) (p_env s1) (gdict E (p_items s1)) /\ path_stack st1 = path_stack st).
+    { apply (sim_step dbg fs fsr inc E st cur ek items e st1 s1 path ps HSim EPS OK0 S1 Z1 P1); [|exact H2'].
       intros m w Hm. apply HE, M1, Hm. }
+    destruct S' as (S' & EPS').
     destruct (IH st1 s1 s' S' T1 P1') as (st' & RI & Rest); auto.
+    + congruence.
     + intros pre e0 post s0 Hl Hp. apply (HC (e :: pre) e0 post s0); [rewrite Hl; reflexivity|]. cbn [map pass1]. rewrite P1. exact Hp.
     + intros pre e0 post s0 s2 Hl Hp. apply (HFr (e :: pre) e0 post s0 s2); [rewrite Hl; reflexivity|]. cbn [map pass1]. rewrite P1. exact Hp.
     + exists st'. split; [|exact Rest]. cbn [map run_items]. rewrite S1. cbn [CtxModel.bind]. exact RI.
@@ -144,15 +151,14 @@ Proof.
   { destruct cur as [c|]; [destruct C as (sg & EA & HI & _); rewrite EA; exact HI|rewrite C; exact I]. }
   destruct t as [ai [|]|d [|]| |]; cbn [PendG] in Pt; try contradiction.
   - (* instruction *)
-    destruct Pt as (a0 & a1 & v & iF & sF & nF & bF & EAst & HB & F0 & Dv & AF & EF & AB).
-    cbn [PendD] in HD. destruct HD as (a1' & EAst' & Dn1). rewrite EAst in EAst'. inversion EAst'; subst a1'.
-    destruct (den64 (rho E) a1) as [v1|] eqn:D1; [|congruence]. pose proof (fwd_den_eq _ _ _ _ _ F0 Dv D1) as ->.
+    destruct Pt as (args & pos & a0 & a1 & iF & sF & nF & bF & EAst & EPo & N0 & SG & AF & EF & AB).
     pose proof (enc_bytes_size _ _ _ EF) as (_ & LF). pose proof (assemble_args_isz _ _ _ _ _ _ _ AF) as IF.
     cbn [run_task]. unfold instr_assemble. rewrite EAst. cbn [a_args].
-    rewrite (first_panic_none st [a1] (ev_ok_st st tbl p ps EL EP)).
-    destruct (ctx_eval_now E E st tbl p ps EL EP TE (env_le_refl E) a1 v D1) as (ch & CE).
-    assert (E1 : instr_ev st a1 = (AConst v, SComplete)) by (unfold instr_ev; rewrite CE; reflexivity).
-    destruct (branch_value (instr_ev st) (final_ev E) false false (ai_addr ai) (ai_instr ai) a1 a0 v iF sF HB E1 (final_ev_den E a0 v Dv) AF) as (s1 & AM).
+    rewrite (first_panic_none st _ (ev_ok_st st tbl p ps EL EP)).
+    pose proof (assemble_args_swap _ _ _ _ _ _ _ a1 _ _ EPo N0 SG AF) as AF1.
+    assert (AM : assemble_args (instr_ev st) false (ai_addr ai) (ai_instr ai) (mkAst (AsmStmtModel.set_nth pos a1 args) 0) = COk iF sF).
+    { apply (assemble_args_mono_on _ (final_ev E) (instr_ev st) false false); [|exact AF1].
+      intros a a' _ Ha. eapply end_ev_le; eauto. }
     rewrite AM. cbn [CtxModel.bind]. unfold write_instr. cbn [ai_instr ai_file ai_line ai_col ai_addr]. rewrite EF.
     assert (Hsz : task_size (InstrTask ai false) = mlen bF) by (cbn [task_size]; unfold mlen; rewrite LF; congruence).
     assert (Hpos : 0 < mlen bF) by (unfold mlen; rewrite LF; destruct iF; cbn; lia).
@@ -229,15 +235,15 @@ Qed.
 Lemma leave_file_not_fuel st fr : leave_file st fr <> OutOfFuel.
 Proof. unfold leave_file. destruct (negb _); [discriminate|]. destruct (path_stack st); discriminate. Qed.
 
-Theorem pipeline_accepts fs path text els placed env :
+Theorem pipeline_acceptsx fs fsr path text els placed env :
   parse_source text = Parsed (map Text.ParseModel.IOk els) None ->
-  layout_spec fs (map e_val els) = Some (placed, env) ->
-  C05_class fs env els ->
-  no_collision fs (map e_val els) ->
+  layout_spec fsr (map e_val els) = Some (placed, env) ->
+  C05_classx fs fsr path env els ->
+  no_collision fsr (map e_val els) ->
   exists regions, pipeline fs path text = Done Success [] regions.
 Proof.
   intros HPa HL HC NC.
-  unfold layout_spec in HL. destruct (pass1 fs (mkP1 None [] []) (map e_val els)) as [sF|] eqn:P1; [|discriminate].
+  unfold layout_spec in HL. destruct (pass1 fsr (mkP1 None [] []) (map e_val els)) as [sF|] eqn:P1; [|discriminate].
   destruct (pass2 (p_env sF) (rev (p_items sF))) as [pl|] eqn:P2; [|discriminate]. inversion HL; subst placed env. clear HL.
   set (E := p_env sF) in *.
   set (inc := assemble false fs 63).
@@ -255,7 +261,7 @@ Proof.
   { intros a it Hi. apply (pass2_all E _ _ P2). apply in_rev in Hi. exact Hi. }
   assert (T0 : Tight st0) by exact I.
   assert (D0 : Pd E st0) by (intros ts Hts; inversion Hts; constructor).
-  destruct (prog_run false fs inc E IO els st0 _ sF S0 T0 D0 HC (no_collision_fresh fs E els NC) P1 (env_le_refl E) H2)
+  destruct (prog_run false fs fsr inc E path [] IO els st0 _ sF S0 T0 D0 eq_refl HC (no_collision_fresh fsr E els NC) P1 (env_le_refl E) H2)
     as (sta & RI & Za & _ & Da & (ts & ELT & HT)).
   (* the tasks *)
   assert (LL : exists stb, local_loop false task_rounds ts (set_local_tasks sta (Some [])) None = Ret None stb /\
@@ -289,14 +295,30 @@ Proof.
   cbn [negb rev]. eexists. reflexivity.
 Qed.
 
+Theorem pipeline_accepts fs path text els placed env :
+  parse_source text = Parsed (map Text.ParseModel.IOk els) None ->
+  layout_spec fs (map e_val els) = Some (placed, env) ->
+  C05_class fs env els ->
+  no_collision fs (map e_val els) ->
+  exists regions, pipeline fs path text = Done Success [] regions.
+Proof. intros HPa HL HC. apply (pipeline_acceptsx fs fs path text els placed env HPa HL (class_x _ path _ _ HC)). Qed.
+
 (* for every program of the class that is well-formed per the reference, the image is the reference image *)
+Theorem layout_acceptsx fs fsr path text els placed env :
+  parse_source text = Parsed (map Text.ParseModel.IOk els) None ->
+  layout_spec fsr (map e_val els) = Some (placed, env) ->
+  C05_classx fs fsr path env els ->
+  no_collision fsr (map e_val els) ->
+  pipeline fs path text = Done Success [] (image_of placed).
+Proof.
+  intros HPa HL HC NC. destruct (pipeline_acceptsx fs fsr path text els placed env HPa HL HC NC) as (regions & HP).
+  rewrite HP. f_equal. eapply layout_generalx; eauto.
+Qed.
+
 Theorem layout_accepts fs path text els placed env :
   parse_source text = Parsed (map Text.ParseModel.IOk els) None ->
   layout_spec fs (map e_val els) = Some (placed, env) ->
   C05_class fs env els ->
   no_collision fs (map e_val els) ->
   pipeline fs path text = Done Success [] (image_of placed).
-Proof.
-  intros HPa HL HC NC. destruct (pipeline_accepts fs path text els placed env HPa HL HC NC) as (regions & HP).
-  rewrite HP. f_equal. eapply layout_general; eauto.
-Qed.
+Proof. intros HPa HL HC. apply (layout_acceptsx fs fs path text els placed env HPa HL (class_x _ path _ _ HC)). Qed.
